@@ -10,17 +10,18 @@ PROP = "C13"
 ENGINE = "order"
 LEAN_MODULES = ["RtoscModel.Props.C13"]
 THEOREMS = [
-    "Rtosc.Save.kahn_is_topological",
-    "Rtosc.Save.edges_cover_dependencies",
-    "Rtosc.Save.independent_lines_commute",
-    "Rtosc.Save.kahn_perm_invariant_state",
+    "Rtosc.C13.kahn_is_topological",
+    "Rtosc.C13.edges_cover_dependencies",
+    "Rtosc.C13.independent_lines_commute",
+    "Rtosc.C13.kahn_perm_invariant_state",
+    "Rtosc.C13.dependent_port_applied_first",
 ]
 HARNESS = dict(C12.HARNESS)
 STATELESS = True
 RULE = ("every savefile of C12's state space (six generated applications x states reached by random parameter "
         "messages, biased towards enabling toggles, preset ports and their dependants) is split into messages with "
         "the library's own scanner and loaded in every permutation of its messages (exhaustive up to 6 messages = "
-        "up to 720 loads per case, 40..200 pseudo-random permutations beyond); non-trivial = the file has at least "
+        "up to 720 loads per case, 40..200 pseudo-random permutations beyond); non-trivial = the history has at least "
         "two messages; distinct = distinct op line")
 ASSUMPTIONS = list(C12.ASSUMPTIONS) + [
     "port names in a savefile are pairwise different (save_to_file's `written` set guarantees it)",
@@ -37,7 +38,7 @@ LEVEL_NOTE = "Ports::apropos enters as a hypothesis (MetaCovers) that is checked
 
 def generate(rng, tier, stats):
     apps = SA.pool()
-    n = 260 if tier == "quick" else 6000
+    n = 600 if tier == "quick" else 12000
     stats.update({"apps": len(apps), "hist_len": {}, "wrong_type_msgs": 0, "perm_ops": 0})
     for a in apps:
         C12.prepare(a)
@@ -50,7 +51,7 @@ def generate(rng, tier, stats):
 
 def nontrivial(op):
     w = op.split()
-    return len(w) > 3 and w[3] != "-"
+    return len(w) > 3 and ";" in w[3]
 
 
 def oracle(op, out):
